@@ -1,0 +1,24 @@
+//go:build verif
+
+// Package router: machine-checked contracts (comment-only; read by /verif/govc).
+package router
+
+//@ type Router
+//@   invariant wired [C13]: nonnil(self.instance) && self.table != nil
+
+//@ type AnnouncePingHandler
+//@   invariant wired [C13]: self.r != nil
+
+// ---- identities are verified before they reach the state (C01) ---------------------------------
+//@ func Router.sessionFromPingHeader
+//@   requires nonnil(f) && f.data != nil
+//@   ensures verified-session [C01,C07]: result1 == nil ==> result0 != nil
+
+//@ func AnnouncePingHandler.sessionFromAnnouncePingAttachment
+//@   requires a != nil
+//@   ensures session [C01,C08]: result1 == nil ==> result0 != nil
+
+//@ func parsePingHeader
+//@   requires nonnil(f) && f.data != nil
+//@   modifies nothing
+//@   ensures header [C07,C13]: err == nil ==> hdr != nil && dataOffset >= 2 && dataOffset <= f.authIndex - f.messageIndex - 2
